@@ -26,7 +26,7 @@ RULE = ("names: every sequence of 1..4 (thorough: 1..5) segments over {'..','.',
         "holds equally named sentinel files. compositions: random ChoiceLoader/PrefixLoader/DictLoader "
         "(and FileSystemLoader leaves) trees of depth<=3, all names of <=2 and a fifth of those of 3 segments over 6 fragments (+ ':' / '.' delimiter variants), "
         "get_source and get_template compared with a 10-line resolution model. distinct = distinct "
-        "(name, loader configuration) pairs + distinct (composition, name) pairs")
+        "(name, loader configuration) pairs (names of <=4 segments) + distinct compositions")
 LEVEL_TEXT = ("held for every enumerated name on every loader configuration (POSIX path rules only) and on "
               "every generated composition; says nothing about symlinks inside the search path, zip "
               "packages or Windows separators")
@@ -40,18 +40,18 @@ ASSUMPTIONS = [
 NSHARDS = {"quick": 16, "thorough": 16}
 BUDGET_S = {"quick": 90, "thorough": 900}
 FLOORS = {
-    "quick": {"evaluations": 180000, "distinct": 130000,
+    "quick": {"evaluations": 180000, "distinct": 110000,
               "counters": {"names": 22000, "open_events": 21000, "opens_inside": 21000,
                            "get_source_found": 14000, "rejected_parent_reference": 34000,
                            "get_template_calls": 11000, "compositions": 240,
                            "compose_lookups": 55000, "compose_found": 7000,
                            "compose_notfound": 48000}},
-    "thorough": {"evaluations": 400000, "distinct": 100000,
-                 "counters": {"names": 20000, "open_events": 20000, "opens_inside": 20000,
-                              "get_source_found": 20000, "rejected_parent_reference": 50000,
-                              "get_template_calls": 10000, "compositions": 5000,
-                              "compose_lookups": 300000, "compose_found": 50000,
-                              "compose_notfound": 50000}},
+    "thorough": {"evaluations": 2800000, "distinct": 110000,
+                 "counters": {"names": 270000, "open_events": 88000, "opens_inside": 88000,
+                              "get_source_found": 58000, "rejected_parent_reference": 490000,
+                              "get_template_calls": 87000, "compositions": 6000,
+                              "compose_lookups": 1390000, "compose_found": 178000,
+                              "compose_notfound": 1200000, "pairs_5_segments": 1200000}},
 }
 
 FRAGS = ["..", ".", "", "a", "b.txt", "a\\b", "C:", "\\\\x", "é", "..a", "a..", " "]
@@ -476,7 +476,7 @@ def check_composition(ctx, sb, spec, names, case):
                           f"{api}({name!r}) on {spec} gave {got!r} ({exc!r}); the first loader "
                           f"that has the name gives {want!r}", dict(case, name=name))
             return
-        ctx.dist(("compose", case["index"], case["seed"], name))
+    ctx.dist(("compose", case["seed"], spec))
 
 
 def part_compose(ctx, sb, quick):
